@@ -32,9 +32,8 @@ XorIp(ip, tid) == [i \in 1..Len(ip) |-> ip[i] ^^ XorKey(tid)[i]]
 
 FpMask == <<83, 84, 85, 78>>          \* 0x5354554e
 
-RECURSIVE AlgList(_)
 \* PASSWORD-ALGORITHMS entries: 2-byte algorithm, 2-byte parameter length (must be 0: no algorithm has parameters)
-AlgList(v) == IF v = <<>> THEN <<>> ELSE <<U16(v, 1)>> \o AlgList(SubSeq(v, 5, Len(v)))
+AlgList(v) == [k \in 1..(Len(v) \div 4) |-> U16(v, 4 * k - 3)]
 AlgsOk(v) == Len(v) % 4 = 0 /\ \A k \in 0..((Len(v) \div 4) - 1) : U16(v, 4 * k + 1) \in {1, 2} /\ U16(v, 4 * k + 3) = 0
 
 Verdict(ty, v, tid) ==
@@ -83,10 +82,9 @@ Fields(ty, v, tid) ==
          [addr |-> [fam |-> v[2], port |-> U16(XorPort(SubSeq(v, 3, 4)), 1), ip |-> XorIp(SubSeq(v, 5, n), tid)]]
     [] OTHER -> [none |-> TRUE]
 
-RECURSIVE EncAlgs(_)
-EncAlgs(l) == IF l = <<>> THEN <<>> ELSE W16(Head(l)) \o <<0, 0>> \o EncAlgs(Tail(l))
-RECURSIVE EncList(_)
-EncList(l) == IF l = <<>> THEN <<>> ELSE W16(Head(l)) \o EncList(Tail(l))
+EncAlgs(l) == [i \in 1..(4 * Len(l)) |-> LET a == l[(i + 3) \div 4] IN
+                  IF i % 4 = 1 THEN a \div 256 ELSE IF i % 4 = 2 THEN a % 256 ELSE 0]
+EncList(l) == [i \in 1..(2 * Len(l)) |-> LET a == l[(i + 1) \div 2] IN IF i % 2 = 1 THEN a \div 256 ELSE a % 256]
 
 Encode(ty, f, tid) ==
   CASE ty \in TextTypes -> f.text
